@@ -287,7 +287,11 @@ def r6_fixed_length_string_is_a_string(ctx, T, rule="C12.R6"):
     (The VM treats both as VString; a pair the checker admits only for STRING*n fails at run time
     with Type mismatch.)"""
     prog = ctx.prog
-    fs = [f for f in prog.fns.values() if f.name == "cast_binary_op_et" and f.crate == "rusty_linter"]
+    # found by what it is: the function of the checker that takes two expression types and an operator and answers with
+    # an optional expression type (cast_binary_op_et today)
+    fs = [f for f in prog.fns.values() if f.crate == "rusty_linter" and f.kind == "fn" and f.argc == 3
+          and "Option<" in f.body.locals[0]["ty"] and "ExpressionType" in f.body.locals[0]["ty"]
+          and sorted(l["ty"].split("::")[-1] for l in f.body.locals[1:4]) == ["ExpressionType", "ExpressionType", "Operator"]]
     if len(fs) != 1:
         raise CheckError("anchor cast_binary_op_et")
     fn = fs[0]
